@@ -1,6 +1,11 @@
 import Lc.Driver.Util
 import Lc.Driver.Base
+import Lc.Driver.C05
+import Lc.Driver.C06
+import Lc.Driver.C07
 import Lc.Driver.C12
+import Lc.Driver.C13
+import Lc.Driver.C14
 import Lc.Driver.C17
 import Lc.Driver.C18
 import Lc.Driver.ScenarioHandle
@@ -8,7 +13,7 @@ import Lc.Driver.ScenarioHandle
 open Lean Lc.Driver
 
 def handlers : List (String → Json → Option Json) :=
-  [Base.handle, C12.handle, C17.handle, C18.handle, ScenarioHandle.handle]
+  [Base.handle, C05.handle, C06.handle, C07.handle, C12.handle, C13.handle, C14.handle, C17.handle, C18.handle, ScenarioHandle.handle]
 
 def dispatch (j : Json) : Json :=
   let op := getStr j "op"
